@@ -163,16 +163,17 @@ def find_block(src, masked, header_re, lo=0, hi=None, depth=None):
 def find_impl(src, masked, header_regex):
     """Span (open_brace, close_brace) of the first impl whose header (text
     between 'impl' and '{', whitespace-normalised) matches header_regex."""
-    for m in re.finditer(r'\bimpl\b', masked):
-        s = m.start()
-        if _depth_at(masked, s) != 0:
-            continue
-        ob = masked.find('{', s)
-        if ob < 0:
-            continue
-        header = ' '.join(src[s:ob].split())
-        if re.search(header_regex, header):
-            return ob, match_close(masked, ob)
+    for want0 in (True, False):
+        for m in re.finditer(r'\bimpl\b', masked):
+            s = m.start()
+            if want0 and _depth_at(masked, s) != 0:
+                continue
+            ob = masked.find('{', s)
+            if ob < 0:
+                continue
+            header = ' '.join(src[s:ob].split())
+            if re.search(header_regex, header):
+                return ob, match_close(masked, ob)
     raise AnchorLost('impl matching /%s/ not found' % header_regex)
 
 
@@ -216,10 +217,10 @@ def find_type_item(src, kind, name, masked=None):
     """struct / enum / const / type / static at depth 0.  Returns (start_with_attrs, start, end_exclusive)."""
     masked = masked if masked is not None else mask(src)
     pat = r'(?<![A-Za-z0-9_])(?:pub(?:\s*\([^)]*\))?\s+)?' + kind + r'\s+' + re.escape(name) + r'\b'
-    for m in re.finditer(pat, masked):
+    hits0 = [m for m in re.finditer(pat, masked) if _depth_at(masked, m.start()) == 0]
+    hits = hits0 or list(re.finditer(pat, masked))   # items nested in `mod x { .. }`: any depth
+    for m in hits:
         s = m.start()
-        if kind in ('struct', 'enum', 'union') and _depth_at(masked, s) != 0:
-            continue
         k = m.end()
         if kind in ('const', 'type', 'static'):
             e = k
